@@ -226,6 +226,11 @@ var corrupters = map[string]func(rec map[string]any) bool{
 		if _, ok := r["ok"].(bool); !ok {
 			return false
 		}
+		if a, _ := r["alloc"].(float64); a > 0 {
+			// a measured case: the memory clause must bite
+			r["alloc"] = float64(1 << 30)
+			return true
+		}
 		r["ok"] = !r["ok"].(bool)
 		return true
 	},
